@@ -504,6 +504,21 @@ impl ASN1Type {
         Ok(self_replacement)
     }
 
+    /// Checks whether a reference to the type `name` occurs anywhere in `self`.
+    fn mentions(&self, name: &str) -> bool {
+        match self {
+            ASN1Type::ElsewhereDeclaredType(DeclarationElsewhere { identifier, .. }) => {
+                identifier == name
+            }
+            ASN1Type::Choice(c) => c.options.iter().any(|o| o.ty.mentions(name)),
+            ASN1Type::Sequence(s) | ASN1Type::Set(s) => {
+                s.members.iter().any(|m| m.ty.mentions(name))
+            }
+            ASN1Type::SequenceOf(s) | ASN1Type::SetOf(s) => s.element_type.mentions(name),
+            _ => false,
+        }
+    }
+
     pub(crate) fn resolve_parameters(
         identifier: &String,
         _parent: Option<&String>,
@@ -516,6 +531,13 @@ impl ASN1Type {
                 parameterization: Some(Parameterization { parameters }),
                 ..
             })) => {
+                if ty.mentions(identifier) {
+                    // Expanding such a template would never end
+                    return Err(grammar_error!(
+                        NotYetInplemented,
+                        "Parameterized type {identifier} is defined in terms of itself, which is currently unsupported"
+                    ));
+                }
                 let mut impl_template = ty.clone();
                 let mut impl_tlds = tlds.clone();
                 let mut table_constraint_replacements = BTreeMap::new();
